@@ -220,7 +220,7 @@ def materialise(m, src, dst):
             cur.execute('ALTER TABLE "%s" ADD COLUMN "%s" INTEGER' % (t, FRESH))
         elif k == "drop_index":
             cur.execute('DROP INDEX "%s"' % i)
-        elif k in ("rename_index", "change_index_unique", "change_index_columns"):
+        elif k in ("rename_index", "change_index_unique", "change_index_columns", "change_index_expr_tail", "change_index_expr_head"):
             sql = get_sql(path, "index", i)
             if sql is None:
                 con.close()
@@ -234,6 +234,15 @@ def materialise(m, src, dst):
                     new = re.sub(r"UNIQUE\s+", "", sql, count=1, flags=re.I)
                 else:
                     new = re.sub(r"CREATE\s+INDEX", "CREATE UNIQUE INDEX", sql, count=1, flags=re.I)
+            elif k in ("change_index_expr_tail", "change_index_expr_head"):
+                # one more index term that is an expression over a column of the table (seeded change C17f: a verifier that
+                # compares the concatenated column names loses such a term, whose name is NULL)
+                col = next((u for u in used if u), None) or cur.execute("PRAGMA table_info('%s')" % t).fetchall()[0][1]
+                i0, j = sql.index("(", sql.upper().index(" ON ")), sql.rindex(")")
+                if k == "change_index_expr_tail":
+                    new = sql[:j] + ', length("%s")' % col + sql[j:]
+                else:
+                    new = sql[:i0 + 1] + 'length("%s"), ' % col + sql[i0 + 1:]
             else:
                 cols = [r[1] for r in cur.execute("PRAGMA table_info('%s')" % t).fetchall()]
                 extra = [x for x in cols if x not in used]
